@@ -37,7 +37,7 @@ def classify(exc):
 
 def pyval(expr):
     """value of a rendered LExpr (ints, float(), / * - max)"""
-    return eval(expr, {"__builtins__": {}}, {"float": float, "max": max})
+    return eval(expr, {"__builtins__": {}}, {"float": float, "max": max, "round": round, "int": int})
 
 
 def parse_answer(line):
@@ -198,7 +198,8 @@ def run_kind(ctx, tie, scale):
             fields = tie.fields_of(kind, params, data)
             specs.append(("hm:" + kind, fields, data, expect, params))
     for fields in tie.lattice(rng, scale):
-        specs.append(("lattice", fields, None, None, None))
+        # `_py`: the same file built by an independent Python builder
+        specs.append(("lattice", fields, fields.pop("_py", None), None, None))
     lines = []
     for origin, fields, data, expect, params in specs:
         if fields is None:
@@ -1644,6 +1645,394 @@ class Mp4Tie(KindTie):
                     out.append(("name-of-" + key.decode(), g[:i] + key.upper() + g[i + 4:]))
                     out.append(("cut-in-" + key.decode(), g[:i + 4 + rng.randrange(0, 30)]))
         out.append(("empty", b""))
+        return out
+
+
+# ======================================================================================
+# MP3
+
+def _c05():
+    """harness/props/c05.py (spec-derived MPEG header and frame-length builders)"""
+    try:
+        from props import c05
+    except ImportError:
+        sys.path.insert(0, os.path.join(os.path.dirname(os.path.abspath(__file__)), "props"))
+        import c05
+    return c05
+
+
+def mp3_lame_ext(rng, **kw):
+    """27 bytes of the LAME extension (http://gabriel.mp3-tech.org/mp3infotag.html) from field values"""
+    f = dict(revision=0, vbr_method=rng.randrange(16), lowpass=rng.randrange(256), peak=rng.choice([0, rng.getrandbits(32)]),
+             tg_type=rng.choice([0, 1, 1, 2, 7]), tg_origin=rng.randrange(8), tg_sign=rng.getrandbits(1), tg_adj=rng.getrandbits(9),
+             ag_type=rng.choice([0, 2, 2, 1]), ag_origin=rng.randrange(8), ag_sign=rng.getrandbits(1), ag_adj=rng.getrandbits(9),
+             enc_flags=rng.randrange(16), ath=rng.randrange(16), bitrate=rng.choice([0, 8, 32, 128, 254, 255]), delay=rng.choice([0, 576, 1105, 4095]),
+             padding=rng.choice([0, 1, 1151, 4095]), misc=rng.getrandbits(8), mp3gain=rng.getrandbits(8), surround=rng.getrandbits(5) & 7,
+             preset=rng.choice([0, 0, 128, 1001, 1002, 1003, 1004, 1005, 1006, 1007, rng.getrandbits(11)]), music_length=rng.getrandbits(32),
+             music_crc=rng.getrandbits(16), header_crc=rng.getrandbits(16))
+    f.update(kw)
+    v = 0
+    for name, w in (("revision", 4), ("vbr_method", 4), ("lowpass", 8), ("peak", 32), ("tg_type", 3), ("tg_origin", 3), ("tg_sign", 1), ("tg_adj", 9),
+                    ("ag_type", 3), ("ag_origin", 3), ("ag_sign", 1), ("ag_adj", 9), ("enc_flags", 4), ("ath", 4), ("bitrate", 8), ("delay", 12), ("padding", 12),
+                    ("misc", 8), ("mp3gain", 8)):
+        v = (v << w) | (f[name] & ((1 << w) - 1))
+    v = (v << 2)
+    v = (v << 3) | f["surround"]
+    v = (v << 11) | (f["preset"] & 0x7FF)
+    v = (v << 32) | f["music_length"]
+    v = (v << 16) | f["music_crc"]
+    v = (v << 16) | f["header_crc"]
+    return v.to_bytes(27, "big"), f
+
+
+@register
+class Mp3Tie(KindTie):
+    name = "MP3"
+    hm_kinds = ()
+    ATTRS = ("length", "bitrate", "channels", "sample_rate", "version", "layer", "mode", "protected", "padding", "sketchy", "bitrate_mode",
+             "encoder_info", "encoder_settings", "track_gain", "track_peak", "album_gain", "frame_offset")
+
+    def attrs_of(self, i):
+        d = {a: getattr(i, a) for a in self.ATTRS}
+        d["bitrate_mode"] = int(d["bitrate_mode"])
+        d["protected"] = int(d["protected"]); d["padding"] = int(d["padding"]); d["sketchy"] = int(d["sketchy"])
+        return d
+
+    def real(self, data):
+        from mutagen.mp3 import MPEGInfo
+        return self.attrs_of(MPEGInfo(io.BytesIO(data)))
+
+    def public(self, data):
+        from mutagen.mp3 import MP3
+        return self.attrs_of(MP3(io.BytesIO(data)).info)
+
+    # ---- spec-derived pieces (harness/props/c05.py has the header / frame-length builders)
+    @staticmethod
+    def frame(v, l, b, s, pad=0, m=0, p=1, body=None, rng=None):
+        c05 = _c05()
+        ver = {0: 25, 2: 20, 3: 10}[v]; lay = 4 - l
+        br = c05.ISO_BR[(ver, lay)][b] * 1000; sr = c05.ISO_SR[ver][s]
+        flen = c05.iso_frame_length(ver, lay, br, sr, pad)
+        hdr = c05.mpeg_header(v, l, p, b, s, pad, 0, m, 0)
+        if body is None:
+            body = b"\0" * (flen - 4)
+        body = (body + b"\0" * flen)[:max(0, flen - 4)]
+        return hdr + body, flen
+
+    @staticmethod
+    def side(v, m):
+        return (32 if m != 3 else 17) if v == 3 else (17 if m != 3 else 9)
+
+    def xing_frame(self, rng, v, s, m, b=9, magic=b"Xing", flags=15, frames=1000, nbytes=400000, scale=50, version=None, lame=None, cut=None):
+        x = magic + struct.pack(">L", flags)
+        if flags & 1:
+            x += struct.pack(">L", frames)
+        if flags & 2:
+            x += struct.pack(">L", nbytes)
+        if flags & 4:
+            x += bytes(range(100))
+        if flags & 8:
+            x += struct.pack(">L", scale)
+        if version is not None:
+            x += version[:9].ljust(9, b"\0") if lame is not None else version[:20].ljust(20, b"\0")
+            if lame is not None:
+                x += lame
+        if cut is not None:
+            x = x[:cut]
+        fr, flen = self.frame(v, 1, b, s, 0, m, 1, body=b"\0" * self.side(v, m) + x)
+        return fr, flen
+
+    def own_files(self, rng, scale):
+        out = []
+        vs = (3, 2, 0)
+        # CBR streams: every version x layer, a few bitrates, k = 1..6 frames
+        for v in vs:
+            for l in (1, 2, 3):
+                for s in range(3):
+                    for k in (1, 2, 3, 4, 5, 6):
+                        b = rng.randrange(1, 15); m = rng.randrange(4); pad = rng.getrandbits(1)
+                        fr, flen = self.frame(v, l, b, s, pad, m, rng.getrandbits(1), body=bytes(rng.randrange(0, 0xE0) for _ in range(2000)))
+                        out.append(("cbr-k%d" % k, fr * k + rbytes(rng, rng.choice([0, 0, 3, 50]))))
+        # changing bitrates / padding between frames (same version, layer, rate)
+        for _ in range(30 * scale):
+            v = rng.choice(vs); l = rng.choice((1, 2, 3)); s = rng.randrange(3); m = rng.randrange(4)
+            st = b"".join(self.frame(v, l, rng.randrange(1, 15), s, rng.getrandbits(1), m, 1)[0] for _ in range(rng.randrange(1, 7)))
+            pre = rng.choice([b"", b"", bytes(rng.randrange(0, 0xFF) for _ in range(rng.randrange(1, 40)))])
+            out.append(("vbr-no-header", pre + st + rbytes(rng, rng.randrange(0, 10))))
+        # Xing / Info
+        versions = [b"LAME3.99r", b"LAME3.100", b"LAME3.98 ", b"LAME3.97 ", b"LAME3.97b", b"LAME3.96a", b"LAME3.93.", b"LAME3.90.", b"LAME3.90 (alpha)", b"LAME3.92 ",
+                    b"LAME3.89 (beta 1)", b"LAME3.50", b"L3.99r1\0\0", b"LAME3.9", b"LAMELAME3", b"LAME 3.99", b"LAMEx.99r", b"LAME3.\xff9r", b"LAME3.995", b"LAME4.0  ",
+                    b"LAME3.88\xe9", b"GOGO3.99r", b"LAME", b"LAME3", b"LAME3.", b"LAME3..99 ", b"LAME3.99\0\0", b"LAME03.99", b"LAME3.099"]
+        for v in vs:
+            for m in (0, 3):
+                for s in range(3):
+                    for magic in (b"Xing", b"Info"):
+                        for flags in range(16):
+                            fr, flen = self.xing_frame(rng, v, s, m, magic=magic, flags=flags, frames=rng.choice([0, 1, 2, 1000, 2 ** 32 - 1]),
+                                                       nbytes=rng.choice([0, 1, 100, 417, 418, 10 ** 6, 2 ** 32 - 1]), scale=rng.choice([0, 1, 50, 100, 101, 255, 2 ** 32 - 1]),
+                                                       version=rng.choice([None, rng.choice(versions)]))
+                            out.append(("xing", fr + self.frame(v, 1, 9, s, 0, m)[0] * rng.randrange(0, 3)))
+        for ver in versions:
+            for with_lame in (False, True):
+                for _ in range(2 * scale):
+                    v = rng.choice(vs); m = rng.choice((0, 1, 3)); s = rng.randrange(3)
+                    lame, _f = mp3_lame_ext(rng, revision=rng.choice([0, 0, 0, 0, 1, 15]))
+                    fr, flen = self.xing_frame(rng, v, s, m, b=rng.choice([9, 12, 14]), magic=rng.choice([b"Xing", b"Info"]), flags=rng.choice([15, 15, 3, 11, 7, 0, 8]),
+                                               frames=rng.choice([1, 5, 1000, 123457]), nbytes=rng.randrange(1, 10 ** 7), scale=rng.choice([0, 20, 43, 57, 78, 100, 105]),
+                                               version=ver, lame=lame if with_lame else None, cut=rng.choice([None, None, None, rng.randrange(8, 180)]))
+                    out.append(("lame", fr + self.frame(v, 1, 9, s, 0, m)[0]))
+        # guess_settings: the preset / method table for every LAME generation
+        for ver in (b"LAME3.90.", b"LAME3.92 ", b"LAME3.93 ", b"LAME3.97 ", b"LAME3.98r", b"LAME3.99r", b"LAME3.100", b"LAME4.2  "):
+            for method in range(10):
+                for preset, brate, lp, ath, sc, ef in [(0, 128, 190, 4, 78, 0), (0, 255, 195, 3, 88, 1), (1003, 32, 0, 2, 50, 0), (1001, 8, 0, 0, 41, 3), (1007, 254, 195, 2, 78, 0),
+                                                       (500, 32, 0, 4, 48, 1), (0, 8, 0, 0, 35, 0), (1002, 128, 190, 3, 82, 0), (1006, 8, 0, 1, 0, 0), (0, 32, 0, 0, 150, 0)]:
+                    lame, _f = mp3_lame_ext(rng, revision=0, vbr_method=method, preset=preset, bitrate=brate, lowpass=lp, ath=ath, enc_flags=ef)
+                    fr, flen = self.xing_frame(rng, 3, 0, 1, b=12, flags=15, frames=100, nbytes=50000, scale=sc, version=ver, lame=lame)
+                    out.append(("lame-settings", fr))
+        # VBRI
+        for v in vs:
+            for m in (0, 3):
+                for s in range(3):
+                    for version, esize, nent, frames, nby in [(1, 2, 1, 1000, 400000), (1, 4, 3, 1, 1), (1, 2, 0, 0, 5), (0, 2, 1, 5, 5), (2, 2, 1, 5, 5), (1, 3, 1, 5, 5), (1, 0, 7, 5, 5),
+                                                              (1, 2, 100, 77, 2 ** 32 - 1), (1, 4, 60000, 2 ** 32 - 1, 8)]:
+                        vb = b"VBRI" + struct.pack(">HHHLLHHHH", version, 0, 75, nby, frames, nent, 1, esize, 1) + b"\0" * min(esize * nent, 60)
+                        fr, flen = self.frame(v, 1, 12, s, 0, m, 1, body=b"\0" * 32 + vb)
+                        out.append(("vbri", fr + self.frame(v, 1, 12, s, 0, m)[0] * rng.randrange(0, 2)))
+                    vb = b"VBRI" + struct.pack(">HHHLLHHHH", 1, 0, 75, 12345, 99, 1, 1, 2, 1)
+                    for n in (0, 3, 4, 25, 26, 27):
+                        out.append(("vbri-trunc", (self.frame(v, 1, 12, s, 0, m, 1)[0][:36] + vb)[:36 + n]))
+        # layer 1 / 2 frames with "Xing" where layer 3 would have it: ignored
+        for l in (2, 3):
+            fr, flen = self.frame(3, l, 9, 0, 0, 0, 1, body=b"\0" * 32 + b"Xing" + struct.pack(">LLL", 3, 77, 99999))
+            out.append(("xing-layer%d" % (4 - l), fr * 5))
+        # a Xing frame as 2nd / 3rd / 4th frame
+        xf, _ = self.xing_frame(rng, 3, 0, 0, flags=3, frames=10, nbytes=4000)
+        plain, _ = self.frame(3, 1, 9, 0, 0, 0)
+        for k in (1, 2, 3, 4):
+            out.append(("xing-at-%d" % k, plain * k + xf + plain))
+        # ID3v2 tags in front, junk, false syncs
+        good = plain * 5
+
+        def id3(n, size=None, magic=b"ID3"):
+            size = n if size is None else size
+            return magic + b"\3\0\0" + bytes([(size >> 21) & 0x7F, (size >> 14) & 0x7F, (size >> 7) & 0x7F, size & 0x7F]) + b"\0" * n
+        out += [("id3", id3(50) + good), ("id3x2", id3(50) + id3(1) + good), ("id3-size0", id3(0) + good), ("id3-claims-more", id3(10, 5000) + good),
+                ("id3-claims-less", id3(300, 10) + good), ("id3-highbits", b"ID3\3\0\0\x80\x80\x80\x8a" + b"\0" * 10 + good), ("id3-lower", id3(20, magic=b"id3") + good),
+                ("id3-short", b"ID3\3\0\0\0\0"), ("id3-only", id3(30)), ("id3-in-junk", b"xx" + id3(20) + good), ("id3-ff-inside", id3(20)[:10] + b"\xff\xfb\x90\x00" * 5 + good),
+                ("empty", b""), ("one-ff", b"\xff"), ("ff-e0", b"\xff\xe0"), ("ffs", b"\xff" * 200), ("false-then-good", b"\xff\xe0\0\0" * 7 + good),
+                ("junk-ends-ff", b"abc\xff" + good), ("junk-ff-fe", b"\xff\xfe" + b"j" * 30 + good), ("good-cut", good[:len(plain) * 3 + 100]),
+                ("two-frames", plain * 2), ("two-frames+junk", plain * 2 + b"\0" * 5000), ("three-then-other-rate", plain * 3 + self.frame(3, 1, 9, 1, 0, 0)[0] * 3),
+                ("1498-false", b"\xff\xe0" * 1498 + good), ("1499-false", b"\xff\xe0" * 1499 + good), ("1500-false", b"\xff\xe0" * 1500 + good),
+                ("two-then-1500-false", plain * 2 + b"\0" + b"\xff\xe0" * 1600), ("late-two", b"\xff\xe0\0" * 20 + plain * 2 + b"\xff\xe0\0" * 10 + good)]
+        for off in (0, 1, 2, 3, 5, 6, 7, 13, 14, 15, 29, 30, 31, 61, 62, 63, 125, 126, 127, 1000):
+            out.append(("junk-%d" % off, bytes(rng.randrange(0, 0xFF) for _ in range(off)) + good))
+        for _ in range(40 * scale):
+            n = rng.randrange(1, 400)
+            out.append(("random-ff", bytes(rng.choice([0xFF, 0xFF, 0xFB, 0xE0, 0x90, 0, rng.randrange(256)]) for _ in range(n))))
+        for _ in range(20 * scale):
+            b2 = bytearray(rng.choice([good, xf + plain * 2]))
+            for _ in range(rng.choice([1, 2, 5])):
+                b2[rng.randrange(min(len(b2), 200))] = rng.choice([0, 0xFF, 0xE0, rng.randrange(256)])
+            out.append(("flip", bytes(b2)))
+        out.append(("junk-1MiB-minus", b"\0" * (1024 * 1024 - 2) + good))
+        out.append(("junk-1MiB-minus1", b"\0" * (1024 * 1024 - 1) + good))
+        out.append(("junk-1MiB", b"\0" * (1024 * 1024) + good))
+        # sample files
+        d = "/repo/tests/data"
+        for fn in sorted(os.listdir(d)):
+            if fn.endswith(".mp3"):
+                raw = open(os.path.join(d, fn), "rb").read()
+                out.append(("sample:" + fn, raw))
+                if len(raw) > 600:
+                    out.append(("sample-cut:" + fn, raw[:rng.randrange(100, len(raw))]))
+        return out
+
+    def damaged(self, rng, goods, scale):
+        return self.own_files(rng, scale)
+
+    def extra(self, ctx, scale):
+        """iter_sync alone: the real generator against the scan and against the chunk loop of the model"""
+        from mutagen.mp3 import iter_sync
+        rng = ctx.rng
+        cases = []
+        for _ in range(60 * scale):
+            n = rng.choice([0, 1, 2, 3, 4, 5, 6, 7, 8, 14, 15, 16, 30, 31, 32, 33, 62, 63, 64, 100, 300])
+            data = bytes(rng.choice([0xFF, 0xFF, 0xE0, 0xF0, 0xDF, 0x7F, 0]) for _ in range(n))
+            pos = rng.choice([0, 0, 1, 2, n, n + 3])
+            mx = rng.choice([1024 * 1024, 0, 1, 2, 3, 5, 6, 7, 14, 15, 29, 30, 31, n])
+            cases.append((data, pos, mx))
+        lines = []
+        for data, pos, mx in cases:
+            lines.append("infob op=syncs data=%s pos=%d max=%d" % (hx(data), pos, mx))
+            lines.append("infob op=syncchunks data=%s pos=%d max=%d" % (hx(data), pos, mx))
+        ans = ctx.driver.ask(lines)
+        for i, (data, pos, mx) in enumerate(cases):
+            f = io.BytesIO(data); f.seek(pos)
+            got = []
+            for _ in iter_sync(f, mx):
+                got.append(f.tell())
+                f.seek(rng.randrange(0, len(data) + 3))          # the consumer may seek anywhere
+            want = "ok v=%s" % (",".join(map(str, got)) if got else "-")
+            for a, which in ((ans[2 * i], "scan"), (ans[2 * i + 1], "chunks")):
+                ctx.traces_validated += 1
+                ctx.hist["infob:MP3:iter_sync:" + which] += 1
+                if a != want:
+                    ctx.disagree("MP3 iter_sync (%s)" % which, dict(data=data.hex(), pos=pos, max=mx), model=a, impl=want)
+        return len(cases)
+
+
+class Mp3SpecTie(Mp3Tie):
+    """the three specification-side stream shapes of Spec/Info/Mpeg.lean: OK field values only (the driver does not
+    decide `OK`), built here with harness/props/c05.py's header builder as the independent builder"""
+    hm_kinds = ()
+
+    def damaged(self, rng, goods, scale):
+        return []
+
+    def extra(self, ctx, scale):
+        return 0
+
+    @staticmethod
+    def hdr_str(v, l, p, b, s, pad, priv, m, rest):
+        return ".".join(map(str, (v, l, p, b, s, pad, priv, m, rest)))
+
+    def rand_hdr(self, rng, layer=None):
+        v = rng.choice((3, 2, 0)); l = rng.choice((1, 2, 3)) if layer is None else layer
+        return (v, l, rng.getrandbits(1), rng.randrange(1, 15), rng.randrange(3), rng.getrandbits(1), rng.getrandbits(1), rng.randrange(4), rng.getrandbits(6))
+
+    def hdr_bytes(self, h):
+        return _c05().mpeg_header(*h)
+
+    def flen(self, h):
+        c05 = _c05()
+        v, l, p, b, s, pad = h[:6]
+        ver = {0: 25, 2: 20, 3: 10}[v]; lay = 4 - l
+        return c05.iso_frame_length(ver, lay, c05.ISO_BR[(ver, lay)][b] * 1000, c05.ISO_SR[ver][s], pad)
+
+    def lead(self, rng):
+        tags = []
+        for _ in range(rng.choice([0, 0, 1, 1, 2, 3])):
+            n = rng.choice([1, 2, 10, 127, 128, 300])
+            tags.append((rng.choice([2, 3, 4]), rng.getrandbits(8), rng.getrandbits(8), bytes(rng.randrange(0, 0xFF) for _ in range(n))))
+        junk = bytes(rng.randrange(0, 0xE0) for _ in range(rng.choice([0, 0, 1, 2, 3, 7, 30, 31, 500])))
+        if junk[:3] == b"ID3":
+            junk = b"x" + junk
+        py = b"".join(b"ID3" + bytes([a, b, c]) + bytes([(len(d) >> 21) & 0x7F, (len(d) >> 14) & 0x7F, (len(d) >> 7) & 0x7F, len(d) & 0x7F]) + d for a, b, c, d in tags) + junk
+        arg = ",".join("%d.%d.%d.%s" % (a, b, c, d.hex()) for a, b, c, d in tags) if tags else "-"
+        return dict(tags=arg, junk=junk), py
+
+
+@register
+class Mp3CbrTie(Mp3SpecTie):
+    name = "MP3cbr"
+
+    def lattice(self, rng, scale):
+        out = []
+        for _ in range(60 * scale):
+            lead, py = self.lead(rng)
+            d = dict(kind="MP3cbr", **lead)
+            for k in ("f1", "f2", "f3", "f4"):
+                h = self.rand_hdr(rng)
+                body = bytes(rng.randrange(0, 0x40) for _ in range(self.flen(h) - 4))
+                d[k + "h"] = self.hdr_str(*h); d[k + "b"] = body
+                py += self.hdr_bytes(h) + body
+            tr = rbytes(rng, rng.choice([0, 0, 5, 400]))
+            d["trailing"] = tr
+            d["_py"] = py + tr
+            out.append(d)
+        return out
+
+
+@register
+class Mp3XingTie(Mp3SpecTie):
+    name = "MP3xing"
+
+    def lattice(self, rng, scale):
+        out = []
+        for _ in range(120 * scale):
+            lead, py = self.lead(rng)
+            h = self.rand_hdr(rng, layer=1)
+            v, m = h[0], h[7]
+            side = bytes(rng.randrange(0, 0x40) for _ in range(self.side(v, m)))
+            info = rng.getrandbits(1)
+            frames = rng.choice([None, 0, 1, 2, 1000, 123457, 2 ** 32 - 1])
+            nbytes = rng.choice([None, 0, 1, 100, self.flen(h), self.flen(h) + 1, 10 ** 6, 2 ** 32 - 1])
+            toc = rng.choice([None, bytes(range(100))])
+            quality = rng.choice([None, 0, 57, 100, 2 ** 32 - 1])
+            after = bytes(rng.randrange(0, 0x40) for _ in range(rng.choice([0, 5, 19, 20, 60])))
+            flags = (frames is not None) | ((nbytes is not None) << 1) | ((toc is not None) << 2) | ((quality is not None) << 3)
+            x = (b"Info" if info else b"Xing") + struct.pack(">L", flags)
+            for val in (frames, nbytes):
+                if val is not None:
+                    x += struct.pack(">L", val)
+            if toc is not None:
+                x += toc
+            if quality is not None:
+                x += struct.pack(">L", quality)
+            d = dict(kind="MP3xing", hdr=self.hdr_str(*h), side=side, info=info, frames=frames, nbytes=nbytes, toc=toc, quality=quality, after=after, **lead)
+            d["_py"] = py + self.hdr_bytes(h) + side + x + after
+            out.append(d)
+        return out
+
+
+@register
+class Mp3VbriTie(Mp3SpecTie):
+    name = "MP3vbri"
+
+    def lattice(self, rng, scale):
+        out = []
+        for _ in range(80 * scale):
+            lead, py = self.lead(rng)
+            h = self.rand_hdr(rng, layer=1)
+            side = bytes(rng.randrange(0, 0x40) for _ in range(32))
+            esize = rng.choice([2, 4]); nent = rng.choice([0, 1, 5, 100])
+            toc = rbytes(rng, esize * nent)
+            t = dict(delay=rng.getrandbits(16), quality=rng.getrandbits(16), nbytes=rng.choice([0, 1, 12345, 2 ** 32 - 1]), frames=rng.choice([0, 1, 2, 99, 123457, 2 ** 32 - 1]),
+                     tocn=nent, tocscale=rng.getrandbits(16), tocsize=esize, tocfpe=rng.getrandbits(16))
+            vb = b"VBRI" + struct.pack(">HHHLLHHHH", 1, t["delay"], t["quality"], t["nbytes"], t["frames"], nent, t["tocscale"], esize, t["tocfpe"]) + toc
+            after = rbytes(rng, rng.choice([0, 7, 100]))
+            d = dict(kind="MP3vbri", hdr=self.hdr_str(*h), side=side, toc=toc, after=after, **t, **lead)
+            d["_py"] = py + self.hdr_bytes(h) + side + vb + after
+            out.append(d)
+        return out
+
+
+@register
+class Mp3LameTie(Mp3SpecTie):
+    name = "MP3lame"
+
+    def lattice(self, rng, scale):
+        out = []
+        for i in range(200 * scale):
+            lead, py = self.lead(rng)
+            h = self.rand_hdr(rng, layer=1)
+            v, m = h[0], h[7]
+            side = bytes(rng.randrange(0, 0x40) for _ in range(self.side(v, m)))
+            info = rng.getrandbits(1)
+            frames = rng.choice([None, 0, 1, 2, 3, 1000, 123457, 2 ** 32 - 1])
+            nbytes = rng.choice([None, 0, 1, self.flen(h), 10 ** 6, 2 ** 32 - 1])
+            toc = rng.choice([None, bytes(range(100))])
+            quality = rng.choice([None, 0, 20, 43, 57, 78, 100, 101, 150, 2 ** 32 - 1])
+            flags = (frames is not None) | ((nbytes is not None) << 1) | ((toc is not None) << 2) | ((quality is not None) << 3)
+            x = (b"Info" if info else b"Xing") + struct.pack(">L", flags)
+            for val in (frames, nbytes):
+                if val is not None:
+                    x += struct.pack(">L", val)
+            if toc is not None:
+                x += toc
+            if quality is not None:
+                x += struct.pack(">L", quality)
+            vmajor = rng.choice([3, 3, 3, 3, 4, 9]); vminor = rng.choice([90, 91, 92, 93, 96, 97, 98, 99]) if vmajor == 3 else rng.randrange(100)
+            vflag = rng.choice(b"r .ab")
+            ver = b"LAME%d.%02d" % (vmajor, vminor) + bytes([vflag])
+            ext, f = mp3_lame_ext(rng, revision=0, vbr_method=i % 16)
+            d = dict(kind="MP3lame", hdr=self.hdr_str(*h), side=side, info=info, frames=frames, nbytes=nbytes, toc=toc, quality=quality, vmajor=vmajor, vminor=vminor,
+                     vflag=vflag, method=f["vbr_method"], lowpass=f["lowpass"], peak=f["peak"], tgt=f["tg_type"], tgo=f["tg_origin"], tgs=f["tg_sign"], tga=f["tg_adj"],
+                     agt=f["ag_type"], ago=f["ag_origin"], ags=f["ag_sign"], aga=f["ag_adj"], encflags=f["enc_flags"], ath=f["ath"], lbitrate=f["bitrate"], ldelay=f["delay"],
+                     lpadding=f["padding"], misc=f["misc"], mp3gain=f["mp3gain"], surround=f["surround"], preset=f["preset"], mlen=f["music_length"], mcrc=f["music_crc"],
+                     tcrc=f["header_crc"], after=rbytes(rng, rng.choice([0, 5, 40])), **lead)
+            d["_py"] = py + self.hdr_bytes(h) + side + x + ver + ext + d["after"]
+            out.append(d)
         return out
 
 
